@@ -192,8 +192,9 @@ Definition canon_flag (f : flag) : flag :=
          (map canon_rule (f_rules f)) (canon_vorr (f_fallthrough f)) (f_off f) (f_vars f) (f_salt f) (f_track_ft f)
          (f_exclude f) (canon_meta (f_meta f)).
 
+Definition in_u64 (z : Z) : Prop := 0 <= z < two64.
 Definition wf_meta (m : fmeta) : Prop :=
-  in64 (fm_version m) /\ 0 <= fm_debug_until m < two64 /\ in64o (fm_sampling m) /\
+  in64 (fm_version m) /\ in_u64 (fm_debug_until m) /\ in64o (fm_sampling m) /\
   (forall cr, fm_migration m = Some cr -> in64o cr).
 Definition wf_flag (f : flag) : Prop :=
   Forall wf_prereq (f_prereqs f) /\ Forall wf_target (f_targets f) /\ Forall wf_target (f_ctargets f) /\
@@ -400,6 +401,7 @@ Ltac wf_solve :=
   | |- wf_clause _ => unfold wf_clause
   | |- wf_wvar _ => unfold wf_wvar
   | |- _ <= _ < _ => unfold two64; cbn; lia
+  | |- in_u64 _ => unfold in_u64, two64; cbn; lia
   | |- _ => progress cbn [ru_vr ru_clauses vr_var vr_rollout ro_vars ro_seed ro_bucket_by ro_ctxkind pq_var t_var wv_var wv_weight cl_attr cl_kind]
   end.
 
